@@ -387,6 +387,18 @@ def desugar_match(node: 'ast.Match'):
             if not tests:
                 return True, None
             return (tests[0] if len(tests) == 1 else ast.BoolOp(op=ast.And(), values=tests)), None
+        if isinstance(pat, ast.MatchSequence) and isinstance(subj, (ast.Name, ast.Subscript)) and not any(isinstance(p_, ast.MatchStar) for p_ in pat.patterns):
+            # a fixed-length sequence pattern against a value: the length test and the element tests (the subject is taken to be a sequence:
+            # a str / bytes / mapping subject would not match - the rules that read the result say what the subject is)
+            tests = [ast.Compare(left=ast.Call(func=ast.Name(id='len', ctx=ast.Load()), args=[subj], keywords=[]), ops=[ast.Eq()],
+                                 comparators=[ast.Constant(value=len(pat.patterns))])]
+            for i_, p_ in enumerate(pat.patterns):
+                t_, nm_ = test_of(p_, ast.Subscript(value=subj, slice=ast.Constant(value=i_), ctx=ast.Load()))
+                if t_ is None or nm_ is not None:
+                    return None, None
+                if t_ is not True:
+                    tests.append(t_)
+            return (tests[0] if len(tests) == 1 else ast.BoolOp(op=ast.And(), values=tests)), None
         if isinstance(pat, ast.MatchClass) and not pat.patterns and not pat.kwd_patterns:
             # `case int():` - an instance test
             return ast.Call(func=ast.Name(id='isinstance', ctx=ast.Load()), args=[subj, pat.cls], keywords=[]), None
